@@ -138,7 +138,7 @@ Proof. exact (fun W => stale_memory_same_result 0%Z Z.lnot Z.land Z.lor Z.lxor (
    schedule with private buffers returns the sequential results (the premises of the theorem above are satisfiable) *)
 Theorem C16_shared_static_refuted :
   results_of (run_scheduleB true [copy_lib] two_threads bad_schedule) = [[[false]]; [[false]]]
-  /\ map (@expected bool false negb andb orb xorb (fun b => b) [copy_lib]) [(0, [true]); (0, [false])] = [Some [true]; Some [false]].
+  /\ map (@Threads.expected bool false negb andb orb xorb (fun b => b) [copy_lib]) [(0, [true]); (0, [false])] = [Some [true]; Some [false]].
 Proof. exact shared_static_wrong. Qed.
 Theorem C16_private_example :
   results_of (run_scheduleB false [copy_lib] two_threads bad_schedule) = [[[true]]; [[false]]]
